@@ -95,7 +95,9 @@ def rule_edgepred(ctx):
         desc = []
         for h in srcs:
             if h.op == "call" and call_name(h) == "np.where" and len(h.a[1]) == 1:
-                m = h.a[1][0]
+                from .common import factor_ite
+
+                m = factor_ite(h.a[1][0])
                 if q == "util.match_events":
                     okm = m.op == "cmp" and m.a[0] == "<=" and m.a[2].op == "param" and m.a[2].a[0] == "window" and m.a[1].op == "call" and m.a[1].a[0].op == "param" and [a.a[0] if a.op == "param" else None for a in m.a[1].a[1]] == ["ref", "est"]
                     desc.append("np.where(distance(ref, est) <= window)")
